@@ -88,7 +88,18 @@ pub fn drive(args: &[String]) {
         }));
         // the image proper and a second crop of the same size at another offset (same handler)
         // (same handler), two full-width row crops (rows back to back in memory, different start) and the parent
-        let imgs = [parent.crop(0..h, 0..w), parent.crop(6..h + 6, 2..w + 2), parent.crop(0..h, ..), parent.crop(6..h + 6, ..), parent.clone()];
+        let mut imgs = vec![parent.crop(0..h, 0..w), parent.crop(6..h + 6, 2..w + 2), parent.crop(0..h, ..), parent.crop(6..h + 6, ..), parent.clone()];
+        if w <= 24 {
+            // shapes whose column stride is not one: the transposed crop (w rows of h pixels), and every second
+            // column of the parent addressed through a hand-made shape
+            // (the property speaks of images at least six pixels high)
+            if w >= 6 {
+                imgs.push(Image::new(parent.crop(0..h, 0..w).transpose()));
+            }
+            let ps = parent.shape();
+            let half = Shape { width: (ps.width + 1) / 2, col_stride: 2 * ps.col_stride, ..ps };
+            imgs.push(Image::from_parts(parent.data().to_vec().into(), half));
+        }
         let res = guarded(|| {
             let mut hnd = SixelImageHandler::new(bg);
             let mut recs = Vec::new();
